@@ -312,6 +312,20 @@ def check_case(case):
         sl, vl = call(fl, la)
         r.evals += 1
         r.nontrivial.add(k[:160])
+        # the same argument OBJECTS once more in each module: the answer must not change (an argument modified in place by the first
+        # call, or a memo, would make the two modules disagree from the second call on)
+        if st == "ok" and not (isinstance(scale, tuple) and scale and scale[0] in ("kw",)):
+            import copy
+
+            c_t, c_l = copy.deepcopy(vt), copy.deepcopy(vl)
+            st2, vt2 = call(ft, ta)
+            sl2, vl2 = call(fl, la)
+            r.evals += 1
+            from ..core import same_value
+
+            if st2 != "ok" or sl2 != "ok" or not same_value(c_t, vt2) or not same_value(c_l, vl2):
+                r.violation(k + ":second-call", "calling again with the same argument objects gives the same result in both modules",
+                            [repr(c_t)[:150], repr(c_l)[:150]], [repr(vt2)[:150], repr(vl2)[:150]])
         if st != sl or (st == "exc" and vt != vl):
             r.violation(k, "one module raises where the other returns / different exception types", [st, repr(vt)[:200]], [sl, repr(vl)[:200]])
             continue
